@@ -43,10 +43,10 @@ def cases(tier, seed):
     chunk = 9 if tier == "quick" else 15
     for k in range(0, len(words), chunk):
         out.append({"sub": "words", "nw": nw, "lo": k, "hi": min(len(words), k + chunk)})
-    n = 144 if tier == "quick" else 20000
+    n = 144 if tier == "quick" else 60000
     out += [{"sub": "evolve", "i": i} for i in range(n)]
-    out += [{"sub": "fermion", "i": i} for i in range(32 if tier == "quick" else 5000)]
-    out += [{"sub": "tsu", "i": i} for i in range(24 if tier == "quick" else 3000)]
+    out += [{"sub": "fermion", "i": i} for i in range(32 if tier == "quick" else 15000)]
+    out += [{"sub": "tsu", "i": i} for i in range(24 if tier == "quick" else 10000)]
     return out
 
 
